@@ -1283,9 +1283,12 @@ class Model(Object):
         self.objective.direction = {"maximize": "max", "minimize": "min"}.get(
             objective_sense, original_direction
         )
-        self.slim_optimize()
-        solution = get_solution(self, raise_error=raise_error)
-        self.objective.direction = original_direction
+        try:
+            self.slim_optimize()
+            solution = get_solution(self, raise_error=raise_error)
+        finally:
+            # Also when `raise_error` makes a non-optimal status an exception.
+            self.objective.direction = original_direction
         return solution
 
     def repair(
